@@ -234,7 +234,12 @@ class World:
         self.gone = False
 
     def committed(self):
-        return [r[0] for r in self.obs.execute("select id from t order by id").fetchall()]
+        """rows an independent connection sees; 'LOCKED' when some pooled connection holds
+        a lock that keeps even readers out (never the case on the unchanged tree)"""
+        try:
+            return [r[0] for r in self.obs.execute("select id from t order by id").fetchall()]
+        except sqlite3.OperationalError:
+            return ["LOCKED"]
 
     def _classify(self, e):
         exc = self.sa.exc
@@ -307,6 +312,8 @@ class World:
                 c.execution_options(isolation_level="AUTOCOMMIT")
             elif t0 == "F":
                 self.plan.armed.append((tok[1], tok[2]))
+            elif tok == "D":
+                self.plan.armed.clear()
             elif t0 == "W":
                 extra = [self.engine.connect() for _ in range(int(tok[1:]))]
                 for x in extra:
@@ -370,7 +377,10 @@ class World:
         fairy = c._dbapi_connection
         if fairy is not None and fairy.dbapi_connection is not None:
             p = fairy.dbapi_connection
-            working = fl(sorted(r[0] for r in p._raw.execute("select id from t").fetchall()))
+            try:
+                working = fl(sorted(r[0] for r in p._raw.execute("select id from t").fetchall()))
+            except sqlite3.Error:
+                working = "LOCKED"
             rid = str(p.rid) + ("a" if p._raw.autocommit is True else "")
         else:
             working = rid = "x"
